@@ -1,3 +1,4 @@
+import math
 from typing import Optional
 
 import numpy as np
@@ -197,10 +198,13 @@ def cprNL(lat: float) -> int:
     elif np.isclose(abs(lat), 87):
         return 2
 
+    # evaluated with the C library's cos / acos, as the Cython twin does:
+    # numpy's differ in the last ulp, which moves NL within ~1e-12 degree of a
+    # transition latitude
     nz = 15
-    a = 1 - np.cos(np.pi / (2 * nz))
-    b = np.cos(np.pi / 180 * abs(lat)) ** 2
-    nl = 2 * np.pi / (np.arccos(1 - a / b))
+    a = 1 - math.cos(math.pi / (2 * nz))
+    b = math.cos(math.pi / 180 * abs(lat)) ** 2
+    nl = 2 * math.pi / (math.acos(1 - a / b))
     NL = floor(nl)
     return NL
 
